@@ -10,7 +10,7 @@ from __future__ import annotations
 
 import math
 
-from hxv.core import short, ts_of
+from hxv.core import encode_row, short, ts_of
 from hxv.drive import batch, run_schedule
 from hxv.gen import configs, schedules, streams
 from hxv.gen.timeframes import pick_timeframe
@@ -57,7 +57,11 @@ def gen_case(rng, tier, idx):
         cfg["kw"]["timeframe"] = tf
         cfg["kw"]["timeframe_fill"] = tfkind == "collapse_fill"
         bucket = max(1, tf_s // step)
-    return {"cfg": cfg, "rows": rows, "schedule": schedules.rand_schedule(rng, n, bucket=bucket), "family": fam, "tfkind": tfkind}
+    case = {"cfg": cfg, "rows": rows, "schedule": schedules.rand_schedule(rng, n, bucket=bucket), "family": fam, "tfkind": tfkind}
+    if rng.random() < 0.08:
+        # the precision is a public, settable field: after it is changed, recalculate() and later appends must write at the NEW round_value
+        case["round_switch"] = rng.choice([x for x in (0, 1, 2, 3, 6) if x != cfg["kw"].get("round_value", 4)])
+    return case
 
 
 def num(x):
@@ -272,7 +276,16 @@ def run_case(case):
         chk = Checker()
         with SetReadingMonitor(chk.on_write) as mon:
             try:
-                ind = run_schedule(cfg, rows, sch) if mode == "incremental" else batch(cfg, rows)
+                if case.get("round_switch") is not None:
+                    cut = max(sch["preload"], len(rows) - 12) if mode == "incremental" else len(rows)
+                    ind = batch(cfg, rows[:cut])
+                    ind.round_value = case["round_switch"]
+                    ind.recalculate()
+                    for r_ in rows[cut:]:
+                        ind.append(encode_row(r_, "candle"))
+                    stats["round_switches"] = stats.get("round_switches", 0) + 1
+                else:
+                    ind = run_schedule(cfg, rows, sch) if mode == "incremental" else batch(cfg, rows)
             except Exception:
                 stats["raises_left_to_C09"] = stats.get("raises_left_to_C09", 0) + 1
                 continue
